@@ -24,12 +24,20 @@ prop(
          "series has a run crossing it, a run ending/starting exactly on it, or a one-sample hole/island adjacent to it. Classes: "
          "layer : start on/off the 2h grid : step divides 2h or not : #slices bucket : boundary relations present.",
     level_text="Generated-input search (rapid, fixed seeds) against an independent reference model: maximal runs of present grid points -> "
-               "[first, last+step-1s] per series, on the grid {g0+n*step} taken from the slices pint actually requested. Says the relation held on "
+               "[first, last+step-1s] per series, on the grid {g0+n*step} (phase taken from the slices pint actually requested) restricted to start <= t <= end. Says the relation held on "
                "N generated (window, bitmap, order) cases; no proof of absence.",
     level_note="Arrival order over HTTP is steered (all slices held, released one by one with the response flushed before the next) but the order in "
                "which pint's goroutines push results is ultimately the Go scheduler's; exact orders are covered by the MergeRanges layer, whose "
                "per-slice input mirrors the three glue lines of rangeQuery.Run (AppendSampleToRanges per series, ExpandRangesEnd). Steps above 3h "
-               "are outside the stated domain and not generated (2h.Round(step) is 0 from 4h on). Whole-second timestamps only.",
+               "are outside the stated domain and not generated. Out-of-domain observation (documented, not judged): for step > 4h with a window "
+               "longer than one step, (2h).Round(step) is 0 and sliceRange never advances - RangeQuery does not return and keeps allocating "
+               "(promql/series lookbackStep and alerts/count step are user-configurable). Whole-second timestamps only. "
+               "Known finding C13-K1 (class range-before-requested-start): the reference model covers only grid points start <= t <= end (the grid "
+               "phase comes from the request log); pint's output is compared as is and, if that fails, once more with everything stemming from grid "
+               "points before start cut off. Only a case whose sole disagreement is pre-start presence and whose bitmap has a sample on a requested "
+               "grid point before start counts as a hit of the listed finding; any other difference in the same case is a violation. The class keeps "
+               "being generated (classes ending in :prestart). The MergeRanges layer cuts the pre-start part before comparing, because the requested "
+               "window is RangeQuery's business, not MergeRanges'.",
     assumptions=["the fake server's JSON encoding of samples is what Prometheus sends (whole-second timestamps, series without samples omitted)",
                  "one upstream, healthy: errors/timeouts are C15's subject; a RangeQuery that fails or takes >90s is counted inconclusive, never a violation"],
 )
